@@ -369,6 +369,85 @@ def faulty_sets(R, rng, tier):
     shutil.rmtree(d, ignore_errors=True)
 
 
+def stdin_faults(R, rng, tier):
+    """An I/O failure on standard input itself (the '-' target) next to healthy files: the scan completes, '-' is skipped with
+    a reason, the other files keep their findings."""
+    d = os.path.join(impl.scratch(), "stdinf")
+    os.makedirs(d, exist_ok=True)
+    ok = os.path.join(d, "ok.py")
+    open(ok, "w").write("assert zz_ok\n")
+    for argv in (["-", ok], [ok, "-"], ["-"]):
+        r = climain.run_main(["-q", "-f", "json", "--exit-zero"] + argv, stdin_broken=True)
+        R.case(("stdin-fault", tuple(os.path.basename(a) for a in argv)), nontrivial=True, sample={"targets": [os.path.basename(a) for a in argv], "exit": r["exit"], "exception": r["exception"]})
+        R.count("stdin-fault")
+        inp = {"targets": [os.path.basename(a) for a in argv], "stdin": "a descriptor that cannot be read (EBADF)"}
+        if r["exception"] or r["exit"] != 0:
+            R.violations.append({"what": "no report when standard input cannot be read (%s)" % (r["exception"] or "exit %s" % r["exit"]), "input": inp,
+                                 "observed": (r["traceback"] or r["stderr"] or "")[-400:], "signature": None})
+            continue
+        try:
+            j = json.loads(r["stdout"][r["stdout"].index("{"):])
+        except Exception as e:  # noqa: BLE001
+            R.violations.append({"what": "report is not valid JSON (%s)" % e, "input": inp, "observed": r["stdout"][:300], "signature": None})
+            continue
+        sk = [e["filename"] for e in j["errors"]]
+        have = [os.path.basename(x["filename"]) for x in j["results"] if x["test_id"] == "B101"]
+        if len(sk) != 1 or have != (["ok.py"] if ok in argv else []):
+            R.violations.append({"what": "unreadable standard input: skipped %s, findings in %s (expected exactly the stdin target skipped, healthy files reported)" % (sk, have),
+                                 "input": inp, "observed": j["errors"], "signature": None})
+
+
+def order_independence(R, rng, tier):
+    """Files whose visit fails (expressions nested deeper than the visitor's recursion allows, at several depths) and healthy
+    files: what is reported for a file - scanned or skipped, and its findings - is the same alone and after any other file."""
+    import shutil
+    d = os.path.join(impl.scratch(), "orderind")
+    shutil.rmtree(d, ignore_errors=True)
+    os.makedirs(d)
+    specs = {"deep0300.py": 300, "deep0450.py": 450, "deep0700.py": 700, "deep1100.py": 1100, "deep2600.py": 2600, "ok.py": 0}
+    for fn, n in specs.items():
+        body = "assert zz_first\n" + ("zz_v = " + " + ".join(["1"] * n) + "\n" if n else "") + "exec(zz_last)\n"
+        open(os.path.join(d, fn), "w").write(body)
+
+    def outcome(j, fn):
+        sk = [e for e in j["errors"] if os.path.basename(e["filename"]) == fn]
+        return ("skipped" if sk else "scanned", sorted((x["test_id"], x["line_number"]) for x in j["results"] if os.path.basename(x["filename"]) == fn))
+
+    def scan(files):
+        r = climain.run_main(["-q", "-f", "json", "--exit-zero"] + [os.path.join(d, f) for f in files])
+        if r["exception"] or r["exit"] != 0:
+            return None, r
+        return json.loads(r["stdout"][r["stdout"].index("{"):]), r
+    names = sorted(specs)
+    alone = {}
+    for fn in names:
+        j, r = scan([fn])
+        if j is None:
+            R.violations.append({"what": "no report for a deeply nested file (%s)" % (r["exception"] or r["exit"]), "input": {"file": fn, "operands": specs[fn]},
+                                 "observed": (r["traceback"] or "")[-300:], "signature": None})
+            return
+        alone[fn] = outcome(j, fn)
+    orders = [names, names[::-1]] + [rng.sample(names, len(names)) for _ in range(2 if tier == "quick" else 10)]
+    # bandit scans in sorted order whatever the command line says: vary which files are present instead
+    subsets = orders + [[a, b] for a in names for b in names if a < b]
+    if tier == "quick":
+        subsets = orders[:2] + rng.sample(subsets[2:], 8)
+    for files in subsets:
+        j, r = scan(files)
+        R.case(("order-ind", tuple(files)), nontrivial=True, sample={"files": files, "exit": r["exit"]})
+        R.count("order-independence")
+        inp = {"files": files, "operands": {f: specs[f] for f in files}}
+        if j is None:
+            R.violations.append({"what": "no report for a run over deeply nested files (%s)" % (r["exception"] or r["exit"]), "input": inp,
+                                 "observed": (r["traceback"] or "")[-300:], "signature": None})
+            continue
+        for fn in files:
+            if outcome(j, fn) != alone[fn]:
+                R.violations.append({"what": "file %s is %s with findings %s in this run but %s with %s when scanned alone" % (
+                    fn, outcome(j, fn)[0], outcome(j, fn)[1], alone[fn][0], alone[fn][1]), "input": inp, "observed": j["errors"], "signature": None})
+    shutil.rmtree(d, ignore_errors=True)
+
+
 def check_faults(R, rng, tier):
     """A check that raises while one file is scanned (the tester logs it and goes on) costs that file's findings of that check
     only: files scanned afterwards keep all of theirs."""
@@ -489,6 +568,8 @@ def run(R, replay=None):
     byte_cases(R, rng, R.tier)
     many_files(R, rng, R.tier)
     faulty_sets(R, rng, R.tier)
+    stdin_faults(R, rng, R.tier)
+    order_independence(R, rng, R.tier)
     check_faults(R, rng, R.tier)
     odd_names(R, rng, R.tier)
     odd_names_stdout(R, rng, R.tier)
